@@ -1,4 +1,4 @@
 export VERIF_REPO=$VP_RUN_REPO
 export FOCUS=1
-for n in 'C17-*' 'C12-*'; do tools/rerun_all_seeded.sh "$n"; done
-for p in C03 C12 C17 C11; do /usr/bin/time -f "$p wall=%es maxrss=%MKB" ./check $p thorough 2>&1 | grep -v "^  features\|^KNOWN" | tail -3; done
+for p in C17 C03 C11 C05 C08 C09; do /usr/bin/time -f "$p wall=%es maxrss=%MKB" ./check $p thorough 2>&1 | grep -v "^  features\|^KNOWN" | tail -3; done
+for n in 'C17-*'; do tools/rerun_all_seeded.sh "$n"; done
